@@ -24,8 +24,9 @@ COLLISIONS = []    # Python Enum classes with two members of the same name (nami
 NAME_ERRORS = []   # Python modules that only import after an unbound name is pre-bound (name resolution: C09 / C11 / C12)
 
 # what each finding class predicts to fail (a failure of another kind on a case of the class is NEW)
+# (C10-scala-package-brace - `}` without opener under a dotless Scala package - was repaired in /repo: no entry, nothing is
+#  suppressed; its witness stays in WITNESSES below and must pass, dotless packages stay in configs(): a regression is a violation)
 PREDICTS = {
-    'C10-scala-package-brace': {'lex', 'template'},
     'C10-scala-default': {'scala-default'},
     'C10-swift-label': {'swift-label'},
     'C10-python-generic-alias': {'py-grammar', 'py-import-at-generic-alias'},
@@ -394,8 +395,10 @@ def judge(chk, cases, tag):
     return drift
 
 
+# label None = witness of a REPAIRED class (fixed in /repo): the case is in no class and every judgement must pass
 WITNESSES = [
-    ('scala', {'package': 'onepassword'}, '#[typeshare]\npub struct A { pub x: String }\n', 'C10-scala-package-brace'),
+    ('scala', {'package': 'onepassword'}, '#[typeshare]\npub struct A { pub x: String }\n', None),
+    ('scala', {'package': 'p'}, '#[typeshare]\npub type Al = Vec<u32>;\n#[typeshare]\npub struct A { pub x: u8 }\n#[typeshare]\npub enum E { U, V }\n', None),
     ('scala', {'package': 'com.x'}, '#[typeshare]\npub struct A { #[serde(default)] pub x: String }\n', 'C10-scala-default'),
     ('swift', {}, '#[typeshare]\npub struct A { pub r#let: String, pub inout: u8 }\n', 'C10-swift-label'),
     ('python', {}, '#[typeshare]\npub type A<T> = Vec<T>;\n', 'C10-python-generic-alias'),
@@ -456,9 +459,16 @@ def run(chk):
     rng = chk.rng
     cfgs = configs(vf.core_version())
     drift = []
-    # 1. one witness per finding class, against the real code
-    wcases = [(l, c, s, {'witness': k}) for l, c, s, k in WITNESSES]
+    # 1. one witness per finding class (and the witnesses of the repaired class, which must pass), against the real code
+    wcases = [(l, c, s, {'witness': k or 'fixed:C10-scala-package-brace'}) for l, c, s, k in WITNESSES]
+    good0 = chk.counters.get('good', 0)
     drift += judge(chk, wcases, 'witness')
+    fixed_w = sum(1 for w in WITNESSES if w[3] is None)
+    chk.counters['fixed_witnesses_passing'] = chk.counters.get('good', 0) - good0
+    if chk.counters['fixed_witnesses_passing'] != fixed_w and not chk.violations:
+        # judge() reports a failing / classified witness itself; this catches the one it would skip (no output, outside dom)
+        chk.violation('witness-fixed', {'expected': fixed_w, 'passing': chk.counters['fixed_witnesses_passing']},
+                      'a witness of the repaired class C10-scala-package-brace is no longer generated, inside dom_C10, in no class and well-formed', no_input=True)
     # 1b. the class that only the IR can reach (the parser rejects tag/content on an enum without data variants)
     empty = {'kind': 'enum', 'algebraic': True, 'tag': 't', 'content': 'c', 'id': ir.mk_id('E'), 'generics': [], 'comments': [], 'variants': [],
              'decorators': [], 'is_recursive': False, 'is_redacted': False}
